@@ -1702,10 +1702,21 @@ func (c *compiler) optimizeCodeOps() {
 	if verifOff(verifOptCodeOps) {
 		return
 	}
+	// Two instructions are not merged when another instruction jumps to the latter.
+	targets := make([]bool, len(c.codes)+1)
+	for _, code := range c.codes {
+		switch code.op {
+		case opfork, opforktrybegin, opforkalt, opjump, opjumpifnot:
+			targets[code.v.(int)] = true
+		}
+	}
 	for i, next := len(c.codes)-1, (*code)(nil); i >= 0; i-- {
 		code := c.codes[i]
 		switch code.op {
 		case oppush, opdup, opload:
+			if targets[i+1] {
+				break
+			}
 			switch next.op {
 			case oppop:
 				code.op = opnop
